@@ -96,7 +96,7 @@ class Obligation(object):
 
 
 class Budget(object):
-    feas_ms = 4000
+    feas_ms = 1500
     prove_ms = 10000
     max_paths = 4000
     max_loop_unroll = 64
@@ -110,6 +110,8 @@ class _TempAssume(object):
     def __enter__(self):
         self.n = len(self.ctx.pc)
         self.ctx.temp_depth += 1
+        self.saved_model = self.ctx.model_ok
+        self.ctx.model_ok = None
         self.ctx.solver.push()
         self.ctx.solver.add(self.cond)
         return self
@@ -117,9 +119,29 @@ class _TempAssume(object):
     def __exit__(self, *a):
         self.ctx.temp_depth -= 1
         self.ctx.solver.pop()
+        self.ctx.model_ok = None
         for z in self.ctx.pc[self.n:]:
             self.ctx.solver.add(z)
         return False
+
+
+def solve_in_new_context(text, timeout_ms):
+    c = z3.Context()
+    s = z3.Solver(ctx=c)
+    s.set("timeout", int(timeout_ms))
+    try:
+        s.from_string(text)
+        r = s.check()
+    except z3.Z3Exception:
+        return z3.unknown, None
+    model = None
+    if r == z3.sat:
+        try:
+            model = s.model().translate(z3.main_ctx())
+        except Exception:
+            model = None
+    # compare by name: CheckSatResult objects of different contexts
+    return {"sat": z3.sat, "unsat": z3.unsat}.get(str(r), z3.unknown), model
 
 
 def split_goal(z, hyps=None, depth=0):
@@ -174,6 +196,12 @@ class Context(object):
         self.cut_depth = None
         self.cut_prefixes = []
         self.in_sub = 0
+        self.assuming = 0
+        self.pc_ids = {}              # ast id -> index in pc (scope-aware: truncated together with pc)
+        self.pc_kind = []             # parallel to pc
+        self.lib_mode = 0             # >0 while a library-fact helper is assuming
+        self.model_ok = None          # a model of the current solver state, when one is known
+        self.decomps = {}             # term id -> [(a, b)]: registered word equations term == a ++ b
         self.axioms = []
 
     # ---- solver -----------------------------------------------------------------------
@@ -182,6 +210,9 @@ class Context(object):
         s.set("timeout", self.budget.feas_ms)
         self.solver = s
         self.pc = []
+        self.pc_ids = {}
+        self.pc_kind = []
+        self.model_ok = None
         for a in self.axioms:
             s.add(a)
 
@@ -190,37 +221,69 @@ class Context(object):
         if self.solver is not None:
             self.solver.add(a)
 
-    def assume(self, cond):
+    def assume(self, cond, kind="path"):
+        """kind: 'path' (decisions, contract assumptions), 'lib' (instances of library facts: true but
+        often irrelevant), 'cut' (proved intermediate steps and assumed lemma instances)"""
         if cond is True:
             return
         if cond is False:
             raise PathEnd("assumed-false")
         z = cond.z if isinstance(cond, SBool) else cond
+        key = z.get_id() if hasattr(z, "get_id") else None
+        if key is not None:
+            if key in self.pc_ids:
+                return                  # already on the path condition (lemma instances repeat a lot)
+            self.pc_ids[key] = len(self.pc)
         self.pc.append(z)
+        del self.pc_kind[len(self.pc) - 1:]
+        self.pc_kind.append(kind if not self.lib_mode else "lib")
         self.solver.add(z)
+        if self.model_ok is not None:
+            # the cached model stays valid only if it satisfies the new conjunct
+            try:
+                if not z3.is_true(self.model_ok.eval(z, model_completion=True)):
+                    self.model_ok = None
+            except z3.Z3Exception:
+                self.model_ok = None
 
     def temp_assume(self, cond):
         return _TempAssume(self, cond)
 
     def check(self, extra=None, timeout=None):
         t0 = time.time()
-        s = self.solver
-        if timeout:
-            s.set("timeout", timeout)
+        # a fresh, non-incremental solver per query: z3's incremental (push/pop) mode is far weaker on
+        # strings (measured: 30 s `unknown` incrementally vs. `unsat` in 10 ms from scratch)
+        s = z3.Solver()
+        s.set("timeout", timeout or self.budget.feas_ms)
+        s.add(self.solver.assertions())
         if extra is not None:
-            s.push()
             s.add(extra)
-        r = s.check()
         model = None
-        if r == z3.sat:
-            try:
-                model = s.model()
-            except z3.Z3Exception:
-                model = None
-        if extra is not None:
-            s.pop()
         if timeout:
-            s.set("timeout", self.budget.feas_ms)
+            # obligations: solve the SMT-LIB text in a brand-new z3 context.  z3's search depends on AST
+            # ids/ordering of the long-lived context (measured: `unknown` after 40 s in the shared context,
+            # `unsat` in 2.6 s for the same text in a new one); a new context makes the verdict a function
+            # of the query text only.
+            r, model = solve_in_new_context(s.to_smt2(), timeout)
+        else:
+            r = s.check()
+            if r == z3.sat:
+                try:
+                    model = s.model()
+                except z3.Z3Exception:
+                    model = None
+            elif r == z3.unknown:
+                r, model = solve_in_new_context(s.to_smt2(), self.budget.feas_ms)
+        if r == z3.unknown and any(k == "lib" for k in self.pc_kind):
+            # without the instances of library facts (a subset of the hypotheses: `unsat` stays sound)
+            lib_ids = {z.get_id() for z, k in zip(self.pc, self.pc_kind) if k == "lib"}
+            s2 = z3.Solver()
+            s2.add([a for a in self.solver.assertions() if a.get_id() not in lib_ids])
+            if extra is not None:
+                s2.add(extra)
+            r2, _ = solve_in_new_context(s2.to_smt2(), 3000)
+            if r2 == z3.unsat:
+                r = z3.unsat
         dt = (time.time() - t0) * 1000
         self.solver_ms += dt
         self.queries += 1
@@ -261,10 +324,28 @@ class Context(object):
         if self.cut_depth is not None and self.pos >= self.cut_depth and not self.temp_depth and not self.in_sub:
             self.cut_prefixes.append(list(self.decisions[:self.pos]))
             raise PathEnd("cut")
-        rt, _, _ = self.check(cond)
-        rf, _, _ = self.check(z3.Not(cond))
-        t_ok = rt != "unsat"
-        f_ok = rf != "unsat"
+        t_ok = f_ok = None
+        mt = mf = None
+        if self.model_ok is not None:
+            try:
+                val = self.model_ok.eval(cond, model_completion=True)
+                if z3.is_true(val):
+                    t_ok, mt = True, self.model_ok
+                elif z3.is_false(val):
+                    f_ok, mf = True, self.model_ok
+            except z3.Z3Exception:
+                pass
+        if t_ok is None:
+            rt, mt, _ = self.check(cond)
+            if rt == "unknown":
+                rt, mt, _ = self.check(cond, timeout=min(self.budget.prove_ms, 12000))     # escalate before guessing
+            t_ok = rt != "unsat"
+        if f_ok is None:
+            rf, mf, _ = self.check(z3.Not(cond))
+            if rf == "unknown":
+                rf, mf, _ = self.check(z3.Not(cond), timeout=min(self.budget.prove_ms, 12000))
+            f_ok = rf != "unsat"
+        self.branch_models = (mt, mf)
         if not t_ok and not f_ok:
             if self.temp_depth:
                 raise ScopeInfeasible()
@@ -274,6 +355,7 @@ class Context(object):
             d = True
             self.decisions.append(d)
             self.pos += 1
+            self.model_ok = mt if not self.temp_depth else None
             self.assume(cond if d else z3.Not(cond))
             return d
         # only one side is feasible: the outcome is entailed by the current solver state (which may
@@ -317,6 +399,27 @@ class Context(object):
             verdict, model, solver = "proved", None, "z3"
             for hyps, goal in split_goal(zc):
                 neg = z3.And(*(hyps + [z3.Not(goal)])) if hyps else z3.Not(goal)
+                # staged: fewer hypotheses first (sound: a proof from a subset is a proof) -- irrelevant
+                # library facts are what makes the string solver wander
+                r = None
+                if not self.temp_depth and len(self.pc) > 12:
+                    for kinds, ms in ((("cut",), 2500), (("cut", "path"), 6000)):
+                        sub = [z for z, k in zip(self.pc, self.pc_kind) if k in kinds]
+                        if len(sub) == len(self.pc):
+                            break
+                        t1 = time.time()
+                        ss = z3.Solver()
+                        ss.add(self.axioms)
+                        ss.add(sub)
+                        ss.add(neg)
+                        rr, _ = solve_in_new_context(ss.to_smt2(), ms)
+                        self.solver_ms += (time.time() - t1) * 1000
+                        self.queries += 1
+                        if rr == z3.unsat:
+                            r = "unsat"
+                            break
+                if r == "unsat":
+                    continue
                 r, m, _ = self.check(neg, timeout=self.budget.prove_ms)
                 if r == "unsat":
                     continue
@@ -345,6 +448,8 @@ class Context(object):
             # continuing under an unproved assumption would hide nothing (it is recorded),
             # but downstream obligations would be conditional; cut the path instead.
             raise PathEnd("obligation-" + verdict)
+        if assume_after and cond is not True:
+            self.assume(zc, kind="cut")          # a proved intermediate step is available to what follows (cut rule)
         return verdict
 
     def try_cvc5(self, extra):
@@ -389,6 +494,7 @@ class Context(object):
             self.leaves = []
             self.star_candidates = {}
             self.names = {}
+            self.decomps = {}
             self.new_solver()
             self.path_index = n
             try:
@@ -416,6 +522,7 @@ class Context(object):
                 self.pos = 0
                 self.queue = []
                 self.solver.push()
+                self.model_ok = None
                 try:
                     v = thunk()
                     results.append((list(self.pc[base_len:]), v))
@@ -423,7 +530,9 @@ class Context(object):
                     pass
                 finally:
                     self.solver.pop()
+                    self.model_ok = None
                     del self.pc[base_len:]
+                    self.pc_ids = {k: i for k, i in self.pc_ids.items() if i < base_len}
                     for d in self.queue:
                         q.append(d)
         finally:
@@ -436,6 +545,43 @@ class Context(object):
 def _ctx_method(f):
     setattr(Context, f.__name__, f)
     return f
+
+
+def _lib(f):
+    """facts assumed inside are instances of library facts (kind 'lib')"""
+    import functools
+
+    @functools.wraps(f)
+    def g(self, *a, **k):
+        self.lib_mode += 1
+        try:
+            return f(self, *a, **k)
+        finally:
+            self.lib_mode -= 1
+    return g
+
+
+@_ctx_method
+def word_equation(self, whole, a, b):
+    """assume  whole == a ++ b  and remember it, so that later slices of `whole` at |a| are taken structurally"""
+    self.assume(whole == z3.Concat(a, b))
+    self.decomps.setdefault(whole.get_id(), []).append((a, b))
+
+
+@_ctx_method
+@_lib
+def end_decomp(self, z, k):
+    """z == init ++ tail with |tail| == k (caller has shown |z| >= k): one shared pair of fresh
+    variables per (term, k), so z[:-k], z[-k:] and z[-1] are the same terms wherever they are written"""
+    key = ("end", z.get_id(), k)
+    if key not in self.decomps:
+        init = self.fresh("init").z
+        tail = self.fresh("tail").z
+        self.word_equation(z, init, tail)
+        self.assume(z3.Length(tail) == k)
+        self.assume(z3.Length(init) == z3.Length(z) - k)
+        self.decomps[key] = (init, tail)
+    return self.decomps[key]
 
 
 @_ctx_method
@@ -465,6 +611,7 @@ def joined(self, seq):
 
 
 @_ctx_method
+@_lib
 def joined_facts(self, prefix, x):
     """joined(prefix ++ [x]) == joined(prefix) ++ x; joined([]) == ''."""
     f = self.opaque_fn("joined", [z3.SeqSort(z3.StringSort())], z3.StringSort())
@@ -474,6 +621,7 @@ def joined_facts(self, prefix, x):
 
 
 @_ctx_method
+@_lib
 def translate(self, z, table):
     if isinstance(table, dict):
         key = tuple(sorted((k, v) for k, v in table.items()))
@@ -488,12 +636,26 @@ def translate(self, z, table):
 
 
 @_ctx_method
+@_lib
 def replace_all(self, z, old, new):
+    """str.replace(old, new): opaque, with instances of facts that hold for every str.replace"""
     f = self.opaque_fn("replace_all", [z3.StringSort()] * 3, z3.StringSort())
-    return f(z, old, new)
+    r = f(z, old, new)
+    self.assume(z3.Implies(z3.Not(z3.Contains(z, old)), r == z))
+    if z3.is_string_value(old) and z3.is_string_value(new):
+        from .values import _pystr
+        o, n = _pystr(old), _pystr(new)
+        if len(o) == 1 and o not in n:
+            self.assume(z3.Not(z3.Contains(r, old)))
+        if o != "" and n != "":
+            self.assume((z3.Length(z) == 0) == (z3.Length(r) == 0))
+        if len(n) <= len(o):
+            self.assume(z3.Length(r) <= z3.Length(z))
+    return r
 
 
 @_ctx_method
+@_lib
 def count_fn(self, z, sub):
     f = self.opaque_fn("str_count", [z3.StringSort()] * 2, z3.IntSort())
     r = f(z, sub)
@@ -504,12 +666,28 @@ def count_fn(self, z, sub):
 
 
 @_ctx_method
+@_lib
+def rfind_fn(self, z, sub):
+    """str.rfind: opaque (portable across solvers) with its defining facts"""
+    f = self.opaque_fn("str_rfind", [z3.StringSort()] * 2, z3.IntSort())
+    r = f(z, sub)
+    n = z3.Length(z)
+    k = z3.Length(sub)
+    self.assume(r >= -1)
+    self.assume((r == -1) == z3.Not(z3.Contains(z, sub)))
+    self.assume(z3.Implies(r >= 0, z3.And(r + k <= n, z3.SubString(z, r, k) == sub,
+                                           z3.Not(z3.Contains(z3.SubString(z, r + 1, n - r - 1), sub)))))
+    return r
+
+
+@_ctx_method
 def str_pred(self, name, z):
     f = self.opaque_fn("str_" + name, [z3.StringSort()], z3.BoolSort())
     return f(z)
 
 
 @_ctx_method
+@_lib
 def strip_fn(self, name, z, chars):
     from . import regex2smt
     if chars is None:
@@ -525,7 +703,7 @@ def strip_fn(self, name, z, chars):
     if name in ("strip", "lstrip"):
         l = self.fresh("lstrip_l").z
         m = self.fresh("lstrip_m").z
-        self.assume(cur == z3.Concat(l, m))
+        self.word_equation(cur, l, m)
         self.assume(z3.Length(cur) == z3.Length(l) + z3.Length(m))
         self.assume(z3.SubString(cur, 0, z3.Length(l)) == l)          # instances of (l++m)[..] facts
         self.assume(z3.SubString(cur, 0, z3.Length(cur) - z3.Length(m)) == l)
@@ -545,7 +723,7 @@ def strip_fn(self, name, z, chars):
     if name in ("strip", "rstrip"):
         m = self.fresh("rstrip_m").z
         r = self.fresh("rstrip_r").z
-        self.assume(cur == z3.Concat(m, r))
+        self.word_equation(cur, m, r)
         self.assume(z3.Length(cur) == z3.Length(m) + z3.Length(r))
         self.assume(z3.SubString(cur, z3.Length(m), z3.Length(cur) - z3.Length(m)) == r)
         self.assume(z3.InRe(r, z3.Star(cls)))
@@ -580,6 +758,7 @@ def int_parse(self, I, z, base):
 
 
 @_ctx_method
+@_lib
 def int_value(self, z, base):
     """Mathematical value of a non-empty digit string in the given base: an opaque function with
     instances of true arithmetic facts (no digit limit: that is int()'s precondition, not the value's)."""
@@ -594,6 +773,7 @@ def int_value(self, z, base):
 
 
 @_ctx_method
+@_lib
 def leading_zero_facts(self, whole, l, m):
     """whole == l ++ m with l in '0'*: the value does not depend on leading zeros."""
     for base in (10, 16):
